@@ -8,3 +8,5 @@ for _p in ("C01", "C02", "C03", "C04", "C05", "C09", "C10"):
 import checks_misc
 CHECKS["C12"] = checks_misc.c12
 CHECKS["C14"] = checks_misc.c14
+import checks_tt
+CHECKS["C15"] = checks_tt.c15
